@@ -356,7 +356,8 @@ PROPS = {
         ],
         "bounds": {"quick": "collect_pos / collect_neg over EVERY sequence of up to 3 elements of every kind (Some / Any / None); one level of each of the four recursive no_placeholder "
                             "functions with the recursive calls returning each of Opt::Some / Any / None (an inductive step over the selector tree: any depth, any width); "
-                            "Rule::write for every filter outcome and an empty / non-empty body"},
+                            "Rule::write for every filter outcome and an empty / non-empty body",
+                   "thorough": "the same with collect_pos / collect_neg over every sequence of up to 6 elements (190 sequences each)"},
         "outside": "sequences longer than 3 in collect_pos / collect_neg (same loop body); how selectors are parsed, nested, extended and printed (write_to); the text of the selectors kept "
                    "(they are kept as objects, by identity); no_leading_combinator; @extend (not implemented in rsass); an empty compound after a combinator is printed as nothing (`b :not(%p)` gives `b `, observed, not claimed)",
         "stubs": ["the recursive no_placeholder calls and collect_pos / collect_neg at their call sites return every Opt value", "Pseudo::name_in(<literal>) is a symbolic boolean per literal (a name is at most one of them)",
@@ -375,7 +376,8 @@ PROPS = {
             ("rsass::input::FsLoader::push_path", "input/fsloader.rs", r"pub fn push_path"),
         ],
         "bounds": {"quick": "Args::run for 0, 1 or 2 input files (loop unrolled; the loop body is the same beyond), with and without --load-path, every outcome (Ok / Err) of opening, compiling "
-                            "and writing each input; both --style values; main for both outcomes of run; MIR of the rsass-cli binary crate dumped from the current tree on every run"},
+                            "and writing each input; both --style values; main for both outcomes of run; MIR of the rsass-cli binary crate dumped from the current tree on every run",
+                   "thorough": "the same with up to 4 input files (17 paths per configuration)"},
         "outside": "clap's argument parsing (option names, defaults: only through the native probes); more than two inputs (same loop body); what the library computes (C38 and the other properties); "
                    "the relative-load order inside FsLoader::find_file (C04); the text of the error after `Error: `",
         "stubs": ["FsContext::for_path / transform / Stdout::write_all fork into Ok and Err; push_path / with_format / stdout are events", "<Args as Parser>::parse returns an arbitrary Args"],
